@@ -91,6 +91,12 @@ def programs(tier):
     add('message-object-under-target', doc(el('div', {'cdata': [' ', I('m'), ' ']}, el('p', I('m')), el('q', 'x', content=['text', py('m')]),
                                               el('r', 'x', static=[['title', ['t ', I('m')]]]),
                                               i18n_target="'de'", i18n_domain='dd', i18n_context='cc')), [['m', 'msg', 0]])
+    # a computed value of None removes the attribute also when i18n:attributes names it (with or without an id);
+    # an empty attribute text is not offered for translation
+    add('attribute-none-and-empty', doc(el('p', 'x', static=[['title', 't'], ['lang', 'l']], attributes=[['title', py('v')], ['lang', py('v')]],
+                                           i18n_attributes='title the-id; lang'),
+                                        el('q', 'y', static=[['title', ''], ['alt', '']], i18n_attributes='title; alt alt-id')),
+        [['v', 'cls', 0]])
     add('implicit-and-explicit', doc(el('img', static=[['alt', ['Logo of ', I('site')]], ['title', 'T']],
                                         i18n_attributes='alt; title')),
         [['site', 'int', 0]], options={'implicit_i18n_attributes': ['alt', 'title']})
